@@ -104,7 +104,10 @@ type Conn struct {
 	// ReadCutAfter >= 0: after this many delivered bytes the stream ends (EOF, or reset when ReadCutReset).
 	ReadCutAfter int64
 	ReadCutReset bool
-	ReadCutStall bool // at the cut the server just stays silent
+	// ReadCutDeadWrites: once a reader has been told about the reset, writes fail as well (a
+	// connection reset by the peer is dead in both directions).
+	ReadCutDeadWrites bool
+	ReadCutStall      bool // at the cut the server just stays silent
 	// CorruptAt >= 0: XOR the server byte at this stream offset with CorruptMask.
 	CorruptAt   int64
 	CorruptMask byte
@@ -273,7 +276,7 @@ func (c *Conn) Read(p []byte) (int, error) {
 					// announce once, then wait
 					if !c.released["announced:"+g] {
 						c.released["announced:"+g] = true
-						c.rec(Event{Op: "gate", Gate: g})
+						c.rec(Event{Op: "gate", Gate: g, N: int(c.delivered)})
 						c.mu.Unlock()
 						c.gate(g)
 						c.mu.Lock()
@@ -289,7 +292,7 @@ func (c *Conn) Read(p []byte) (int, error) {
 				}
 				c.queue = c.queue[1:]
 				if !it.Hold {
-					c.rec(Event{Op: "gate", Gate: g})
+					c.rec(Event{Op: "gate", Gate: g, N: int(c.delivered)})
 					c.mu.Unlock()
 					c.gate(g)
 					c.mu.Lock()
@@ -351,6 +354,9 @@ func (c *Conn) Read(p []byte) (int, error) {
 						continue
 					}
 					if c.ReadCutReset {
+						if c.ReadCutDeadWrites && c.WriteFailAfter < 0 {
+							c.WriteFailAfter = c.written
+						}
 						c.rec(Event{Op: "read", Err: "reset"})
 						c.mu.Unlock()
 						return 0, &net.OpError{Op: "read", Net: "sim", Err: errors.New("connection reset by peer")}
